@@ -9,7 +9,7 @@ import numpy as np
 from .. import history, probes
 from ..battery import call, _Raised
 
-TIERS = {"quick": 800, "thorough": 15000}
+TIERS = {"quick": 800, "thorough": 100000}
 WATCHDOG_S = {"quick": 900, "thorough": 7200}
 RULE = ("case kinds by index mod 2: 0 = connected Hypergraph on 0..N-1 (N 2-9, sizes 2-5): transition matrix, stationary state, "
         "densities from random starts, 3 sampled walks; 1 = contagion on an arbitrary hypergraph (any labels, sizes 1-4, "
